@@ -227,6 +227,49 @@ let run_case_inner (a : string array) : string =
       Printf.sprintf "%s %s %s %s" (match c.zk with ZU -> "U" | ZS -> "S" | ZR -> "R")
         (string_of_z (cl c.zpre)) (string_of_z (cl c.ztrans)) (string_of_z (cl c.zpost))) in
     out m s false
+  | "sched" | "sched20" ->
+    (* C13/C20: a schedule of Start/Release events; names as in the thread harness *)
+    load_table ();
+    let data (n : z list) : z list option =
+      let s = String.concat "" (List.map (fun c -> String.make 1 (Char.chr ((int_of_z c) land 255))) n) in
+      if String.length s > 2 && String.sub s 0 2 = "V:" then
+        (match Hashtbl.find_opt table (String.sub s 2 (String.length s - 2)) with Some e -> Some e.bytes | None -> None)
+      else None in
+    let bytes_of s = List.init (String.length s) (fun i -> z_of_int (Char.code s.[i])) in
+    let str_of n = String.concat "" (List.map (fun c -> String.make 1 (Char.chr ((int_of_z c) land 255))) n) in
+    let evs = List.filter_map (fun tok ->
+      if String.length tok = 0 then None
+      else if tok.[0] = 'S' then
+        let c = String.index tok ':' in
+        Some (Start (nat_of_int (int_of_string (String.sub tok 1 (c - 1))), bytes_of (String.sub tok (c + 1) (String.length tok - c - 1))))
+      else if tok.[0] = 'R' then Some (Release (nat_of_int (int_of_string (String.sub tok 1 (String.length tok - 1)))))
+      else None) (List.tl (Array.to_list a)) in
+    (* threads still parked at the end are released in thread order, as the harness does *)
+    let tids = List.sort_uniq compare (List.filter_map (function Start (t, _) -> Some (int_of_nat t) | _ -> None) evs) in
+    let evs = evs @ List.map (fun t -> Release (nat_of_int t)) tids in
+    let s = exec data evs in
+    let seen = ref [] in
+    let canon id = if int_of_nat id = 0 then 0 else begin
+      let k = int_of_nat id in
+      (match List.assoc_opt k !seen with
+       | Some c -> c
+       | None -> let c = List.length !seen + 1 in seen := !seen @ [(k, c)]; c) end in
+    let res = String.concat "" (List.map (fun (((t, n), ok), id) ->
+      let c = canon id in
+      Printf.sprintf "R%d:%s:%s:%d:1 " (int_of_nat t) (str_of n) (b2s ok) c) s.ls_results) in
+    let inside = ref 0 and mx = ref 0 in
+    let log = String.concat "" (List.map (fun ev ->
+      match ev with
+      | FEnter (t, n) -> incr inside; if !inside > !mx then mx := !inside; Printf.sprintf " E%d:%s" (int_of_nat t) (str_of n)
+      | FExit (t, n) -> decr inside; Printf.sprintf " X%d:%s" (int_of_nat t) (str_of n)) s.ls_log) in
+    let m = Printf.sprintf "%s|%s | maxinside=%d" res log !mx in
+    (* the property (C20): at most one invocation per name, never two at once *)
+    let names = List.sort_uniq compare (List.filter_map (function FEnter (_, n) -> Some n | _ -> None) s.ls_log) in
+    let once = List.for_all (fun n -> int_of_nat (entries_for s.ls_log n) <= 1) names in
+    let serial = not (overlapping s.ls_log) in
+    if a.(0) = "sched" then out m m true
+    else if once && serial then out m m true
+    else out m "a-factory-invocation-repeated-or-overlapping(contract-violated)" true ^ " ; K F7"
   | "chain" ->
     let e = get a.(1) in
     let m = with_model e (fun z ->
